@@ -76,10 +76,35 @@ def run(ctx):
     r = ctx.rng
     dist = {}
     for i in range(n):
-        out = ramses.gen_output(r, exact=True, max_octs=40, levelmax=r.randint(2, 5), with_part=(i % 4 == 0), with_sink=(i % 5 == 0))
-        preds, kind = gen_preds(r, out)
-        if any(p["var"].startswith("position") for p in preds):
-            out["ordering"] = "bisection"
+        if i % 4 == 3:
+            # level cap combined with a position box on a Hilbert-ordered output: the CPU pre-selection has to work with the
+            # capped level (cells of level L are leaves of the truncated tree, stored in the file of the cpu owning their oct)
+            from .c04 import gen_box, gen_hilbert_output
+
+            lmin = 3
+            out, _ = gen_hilbert_output(r, ncpu=r.choice([4, 8, 16, 32]), levelmin=lmin, levelmax=r.choice([lmin, lmin + 1]), max_octs=60)
+            if r.random() < 0.6:
+                # a box of about one finest cell on all three axes around a random finest-cell centre, cap well below levelmin:
+                # the qualifying level-L cell is much larger than the box and is stored with the oct that contains it
+                n_f = 2 ** out["levelmax"]
+                fine = Fraction(1, n_f)
+                blen = out["boxlen"] * out["unit_l"]
+                box = []
+                for ax in range(3):
+                    c = Fraction(2 * r.randrange(n_f) + 1, 2 * n_f)
+                    box.append({"var": "position_" + "xyz"[ax], "op": "gt", "value": (c - fine * Fraction(3, 5)) * blen})
+                    box.append({"var": "position_" + "xyz"[ax], "op": "lt", "value": (c + fine * Fraction(3, 5)) * blen})
+                cap = r.randint(1, max(1, out["levelmin"] - 1))
+            else:
+                box, _ = gen_box(r, out)
+                cap = r.randint(1, out["levelmax"])
+            preds = box + [{"var": "level", "op": "le", "value": cap}]
+            kind = "hilbert_box_and_level_cap"
+        else:
+            out = ramses.gen_output(r, exact=True, max_octs=40, levelmax=r.randint(2, 5), with_part=(i % 4 == 0), with_sink=(i % 5 == 0))
+            preds, kind = gen_preds(r, out)
+            if any(p["var"].startswith("position") for p in preds):
+                out["ordering"] = "bisection"
         dist[kind] = dist.get(kind, 0) + 1
         req = {"preds": preds}
         with loadrun.Written(out) as w:
@@ -120,6 +145,34 @@ def run(ctx):
         if v:
             out_.violations.append({"what": v, "case": {"output": ramses.to_json(out), "request": loadrun.req_for_driver(req)},
                                     "call_site": "Loader.load (level cap)", "input_class": kind})
+    if out_.disagreements and not out_.violations:
+        # the tie is broken but no generated case fails the Spec: search where a level cap and the CPU pre-selection meet
+        # (caps at least two levels below levelmin, boxes of one finest cell anywhere in the domain, many cpus)
+        from .c04 import gen_hilbert_output
+
+        nsearch = 120
+        for _ in range(nsearch):
+            out, _m = gen_hilbert_output(r, ncpu=r.choice([8, 16, 32, 64]), levelmin=3, levelmax=r.choice([3, 4]), max_octs=60)
+            n_f = 2 ** out["levelmax"]
+            fine = Fraction(1, n_f)
+            blen = out["boxlen"] * out["unit_l"]
+            preds = []
+            for ax in range(3):
+                c = Fraction(2 * r.randrange(n_f) + 1, 2 * n_f)
+                preds.append({"var": "position_" + "xyz"[ax], "op": "gt", "value": (c - fine * Fraction(3, 5)) * blen})
+                preds.append({"var": "position_" + "xyz"[ax], "op": "lt", "value": (c + fine * Fraction(3, 5)) * blen})
+            preds.append({"var": "level", "op": "le", "value": 1})
+            req = {"preds": preds}
+            with loadrun.Written(out) as w:
+                impl = loadrun.run_impl(osy, w, req, want_trace=False)
+                spec = lean.run_driver([loadrun.driver_case(out, req, "spec", osy=osy)])[0]
+            out_.evaluations += 1
+            v = ("load raised " + impl["err"]) if impl["err"] else loadrun.compare_spec(out, impl["groups"], "mesh", spec, True)
+            if v:
+                out_.violations.append({"what": v, "case": {"output": ramses.to_json(out), "request": loadrun.req_for_driver(req)},
+                                        "call_site": "Loader.load (level cap)", "input_class": "hilbert_box_and_level_cap"})
+                break
+        out_.extra["search"] = f"up to {nsearch} targeted cases (level cap 1, levelmin 3, one-cell boxes, 8-64 cpus) against the Spec"
     out_.distribution = {"predicate_kinds": dist}
     out_.rule = ("outputs as in C01 with levelmax 2..5 x level predicates l<=k, l<k, a<l<b, l==k, l!=k, l>=k, alone or combined with a density "
                  "or position predicate (non-hilbert ordering), other groups present. Real loader vs model (rows, meta lmax, read trace = only the "
